@@ -272,7 +272,7 @@ BOOLEAN_decode_uper(const asn_codec_ctx_t *opt_codec_ctx,
 	(void)constraints;
 
 	if(!st) {
-		st = (BOOLEAN_t *)(*sptr = MALLOC(sizeof(*st)));
+		st = (BOOLEAN_t *)(*sptr = CALLOC(1, sizeof(*st)));
 		if(!st) ASN__DECODE_FAILED;
 	}
 
